@@ -2,6 +2,7 @@ package props
 
 import (
 	"fmt"
+	"os"
 	"sort"
 	"strings"
 	"time"
@@ -195,8 +196,19 @@ func C05(c *core.Ctx) {
 		ev := good[bi][step]
 		a := str(ev, "a")
 		sig := "ext4-fsck-after-" + strings.ToLower(a)
+		sigs := []string{}
 		if a == "Reset" {
 			sig = "ext4-fsck-after-create-" + strings.ReplaceAll(fmt.Sprintf("spb%d-%s", goodJobs[bi].cfg.SPB, goodJobs[bi].cfg.Extra), ",", "+")
+			// root-cause signatures (input class AND symptom), so that a recorded Create defect is recognised at
+			// every block size / parameter combination it shows at, and nothing else is
+			txt, ex := str(ev, "fscktext"), goodJobs[bi].cfg.Extra
+			groups := goodJobs[bi].cfg.Size / int64(goodJobs[bi].cfg.SPB*512) / int64(goodJobs[bi].cfg.SPB*512*8)
+			if strings.Contains(ex, "sparse2") && groups >= 2 && c05OnlyComplaint(txt, "Block bitmap differences:  -(") {
+				sigs = append(sigs, "ext4-create-sparse-super2-multigroup-marks-unused-backup-blocks")
+			}
+			if strings.Contains(ex, "bpg256") && !strings.Contains(ex, "bpg256nr") && strings.Contains(txt, "Corrupt group descriptor: bad block for block bitmap") {
+				sigs = append(sigs, "ext4-fsck-after-create-spb2-bpg256")
+			}
 		}
 		if a == "Truncate" && strings.Contains(str(ev, "fscktext"), "i_size is") && strings.Contains(str(ev, "fscktext"), ", should be") {
 			sig = "ext4-truncate-keeps-blocks-beyond-new-size"
@@ -208,7 +220,7 @@ func C05(c *core.Ctx) {
 		if step < len(ops) {
 			ops = ops[:step]
 		}
-		c.Fail([]string{sig}, fmt.Sprintf("ext4 %+v [%s]: after step %d %s(p=%v) -> %v: e2fsck -f -n exit %v: %v (dbg=%v err=%v)", goodJobs[bi].cfg, goodJobs[bi].label, step, a, ev["p"], ev["res"], ev["fsck"], firstLines(str(ev, "fscktext"), 6), ev["dbg"], ev["errtext"]),
+		c.Fail(append(sigs, sig), fmt.Sprintf("ext4 %+v [%s]: after step %d %s(p=%v) -> %v: e2fsck -f -n exit %v: %v (dbg=%v err=%v)", goodJobs[bi].cfg, goodJobs[bi].label, step, a, ev["p"], ev["res"], ev["fsck"], firstLines(str(ev, "fscktext"), 6), ev["dbg"], ev["errtext"]),
 			map[string]any{"cfg": goodJobs[bi].cfg, "ops_up_to_failure": ops, "results_up_to_failure": resultsOf(good[bi][:step+1]), "failing_step": step, "fsck_exit": ev["fsck"], "fsck_output": ev["fscktext"], "errtext": ev["errtext"]})
 	}
 	c.TracesValidated = int64(len(good) - len(bad))
@@ -229,4 +241,45 @@ func firstLines(s string, n int) string {
 		ls = ls[:n]
 	}
 	return strings.Join(ls, " | ")
+}
+
+// ExtProbe is a development entry (not registered): one Create configuration given as JSON in
+// VERIF_EXTCFG, a short scripted behaviour, e2fsck after every step; prints what e2fsck said.
+func ExtProbe(c *core.Ctx) {
+	var cfg extCfg
+	if err := jsonUnmarshal(os.Getenv("VERIF_EXTCFG"), &cfg); err != nil {
+		c.Broken("VERIF_EXTCFG: %v", err)
+		return
+	}
+	cfg.Fsck = true
+	ops := []extOp{{A: "Mkdir", P: "d"}, {A: "Create", P: "d/a"}, {A: "WriteAt", P: "d/a", Off: 0, Len: 5000, Tag: 1}, {A: "Remove", P: "d/a"}, {A: "Debugfs"}}
+	evs, err := extExec(cfg, ops)
+	if err != nil {
+		fmt.Println("refused:", err)
+		return
+	}
+	for i, ev := range evs {
+		fmt.Printf("%d %v res=%v fsck=%v %s\n", i, ev["a"], ev["res"], ev["fsck"], firstLines(str(ev, "fscktext"), 8))
+	}
+	c.AddEval(int64(len(evs)))
+	c.Distinct("probe")
+}
+
+// c05OnlyComplaint: e2fsck's output holds the given complaint and no other kind of complaint (every line is
+// a pass header, the complaint, its "Fix? no" answer, or the closing summary).
+func c05OnlyComplaint(txt, complaint string) bool {
+	if !strings.Contains(txt, complaint) {
+		return false
+	}
+	for _, l := range strings.Split(txt, "\n") {
+		l = strings.TrimSpace(l)
+		switch {
+		case l == "", strings.HasPrefix(l, "e2fsck "), strings.HasPrefix(l, "Pass "), strings.HasPrefix(l, "Fix? no"),
+			strings.HasPrefix(l, strings.TrimSpace(complaint)), strings.Contains(l, "WARNING: Filesystem still has errors"),
+			strings.Contains(l, " files ("), strings.HasPrefix(l, "verif:"):
+		default:
+			return false
+		}
+	}
+	return true
 }
